@@ -340,24 +340,48 @@ func (d *dkgModel) ruleParkAfterCtxCheck(c *Ctx, rule string) {
 			if !ok || !isCallTo(&wc.Call, "sync", "Cond.Wait") {
 				continue
 			}
-			var check *ssa.Call
-			okFact := boolFact(FactsAt(wc), false, func(v ssa.Value) bool {
-				cl, ok := v.(*ssa.Call)
-				if !ok {
+			var check ssa.Instruction
+			selectsOnDone := func(sel *ssa.Select) int {
+				for i, st := range sel.States {
+					if dc, ok := strip(st.Chan).(*ssa.Call); ok && dc.Call.IsInvoke() && dc.Call.Method.Name() == "Done" {
+						return i
+					}
+				}
+				return -1
+			}
+			// accepted forms of "the context is still alive": a helper that polls ctx.Done() returned false;
+			// ctx.Err() == nil; the default arm of an inline non-blocking select on ctx.Done()
+			okFact := hasFact(FactsAt(wc), func(f Fact) bool {
+				if f.Op == 0 {
+					cl, ok := f.Bool.(*ssa.Call)
+					if !ok || f.True {
+						return false
+					}
+					cal := staticCallee(&cl.Call)
+					if cal == nil {
+						return false
+					}
+					for _, x := range instrsOf(cal) {
+						if sel, ok := x.(*ssa.Select); ok && !sel.Blocking && selectsOnDone(sel) >= 0 {
+							check = cl
+							return true
+						}
+					}
 					return false
 				}
-				cal := staticCallee(&cl.Call)
-				if cal == nil {
-					return false
+				if f.Op == token.EQL && isNilConst(f.Y) {
+					if cl, ok := strip(f.X).(*ssa.Call); ok && cl.Call.IsInvoke() && cl.Call.Method.Name() == "Err" && isContextType(cl.Call.Value.Type()) {
+						check = cl
+						return true
+					}
 				}
-				// a helper that selects on ctx.Done()
-				for _, x := range instrsOf(cal) {
-					if sel, ok := x.(*ssa.Select); ok {
-						for _, st := range sel.States {
-							if dc, ok := strip(st.Chan).(*ssa.Call); ok && dc.Call.IsInvoke() && dc.Call.Method.Name() == "Done" {
-								check = cl
-								return true
-							}
+				if e, ok := strip(f.X).(*ssa.Extract); ok && e.Index == 0 {
+					if sel, ok := e.Tuple.(*ssa.Select); ok && !sel.Blocking {
+						k, okK := constInt(f.Y)
+						di := selectsOnDone(sel)
+						if okK && di >= 0 && ((f.Op == token.NEQ && int(k) == di && len(sel.States) == 1) || (f.Op == token.EQL && int(k) == -1)) {
+							check = sel
+							return true
 						}
 					}
 				}
@@ -517,4 +541,10 @@ func auditPanics(c *Ctx, rule string, m *Module, pkg string, entries []*ssa.Func
 		c.Check(reason != "", rule, fn, "panic "+txt, m.Pos(p.Pos()), reason,
 			"an explicit panic is reachable from KeyGen/Sign and has no recorded reason why it cannot be triggered by a timeout, a vanished peer or a failed local precondition")
 	}
+}
+
+// isContextType: t is context.Context.
+func isContextType(t types.Type) bool {
+	n, ok := t.(*types.Named)
+	return ok && n.Obj().Pkg() != nil && n.Obj().Pkg().Path() == "context" && n.Obj().Name() == "Context"
 }
